@@ -5292,15 +5292,6 @@ class PyCdlib:
         if boot_dirrecord.inode is None:
             raise pycdlibexception.PyCdlibInternalError('Tried to add an empty boot dirrecord inode to the El Torito boot catalog')
 
-        if boot_info_table:
-            orig_len = boot_dirrecord.get_data_length()
-            bi_table = eltorito.EltoritoBootInfoTable()
-            with inode.InodeOpenData(boot_dirrecord.inode, self.logical_block_size) as (data_fp, data_len):
-                bi_table.new(self.pvd, boot_dirrecord.inode, orig_len,
-                             self._calculate_eltorito_boot_info_table_csum(data_fp, data_len))
-
-            boot_dirrecord.inode.add_boot_info_table(bi_table)
-
         system_type = 0
         if media_name == 'hdemul':
             with inode.InodeOpenData(boot_dirrecord.inode, self.logical_block_size) as (data_fp, data_len):
@@ -5310,6 +5301,27 @@ class PyCdlib:
                 system_type = eltorito.hdmbrcheck(disk_mbr, sector_count,
                                                   bootable)
 
+        # Everything that can still be refused is done before this object is
+        # changed, so that a refused call leaves no trace.
+        rrname = ''
+        if self.eltorito_boot_catalog is None:
+            if self.rock_ridge:
+                if rr_bootcatname is None:
+                    rrname = 'boot.cat'
+                else:
+                    rrname = rr_bootcatname
+
+            self._check_new_paths(bootcatfile, rrname, joliet_bootcatfile,
+                                  udf_bootcatfile, False)
+
+        bi_table = None
+        if boot_info_table:
+            orig_len = boot_dirrecord.get_data_length()
+            bi_table = eltorito.EltoritoBootInfoTable()
+            with inode.InodeOpenData(boot_dirrecord.inode, self.logical_block_size) as (data_fp, data_len):
+                bi_table.new(self.pvd, boot_dirrecord.inode, orig_len,
+                             self._calculate_eltorito_boot_info_table_csum(data_fp, data_len))
+
         num_bytes_to_add = 0
         if self.eltorito_boot_catalog is not None:
             # An El Torito Boot Catalog already exists; add a new section.
@@ -5317,31 +5329,30 @@ class PyCdlib:
                                                    sector_count, boot_load_seg,
                                                    media_name, system_type, efi,
                                                    bootable)
+            if bi_table is not None:
+                boot_dirrecord.inode.add_boot_info_table(bi_table)
         else:
             # Step 2.
             br = headervd.BootRecord()
             br.new(b'EL TORITO SPECIFICATION')
+
+            # Step 3.
+            new_boot_catalog = eltorito.EltoritoBootCatalog(br)
+            new_boot_catalog.new(br, boot_dirrecord.inode,
+                                 sector_count, boot_load_seg,
+                                 media_name, system_type, platform_id,
+                                 bootable)
+
             self.brs.append(br)
             # On a UDF ISO, adding a new Boot Record doesn't actually increase
             # the size, since there are a bunch of gaps at the beginning.
             if not self._has_udf:
                 num_bytes_to_add += self.logical_block_size
-
-            # Step 3.
-            self.eltorito_boot_catalog = eltorito.EltoritoBootCatalog(br)
-            self.eltorito_boot_catalog.new(br, boot_dirrecord.inode,
-                                           sector_count, boot_load_seg,
-                                           media_name, system_type, platform_id,
-                                           bootable)
+            self.eltorito_boot_catalog = new_boot_catalog
+            if bi_table is not None:
+                boot_dirrecord.inode.add_boot_info_table(bi_table)
 
             # Step 4.
-            rrname = ''
-            if self.rock_ridge:
-                if rr_bootcatname is None:
-                    rrname = 'boot.cat'
-                else:
-                    rrname = rr_bootcatname
-
             num_bytes_to_add += self._add_fp(None, self.logical_block_size,
                                              False, bootcatfile, rrname,
                                              joliet_bootcatfile,
